@@ -26,6 +26,11 @@ CHECKS = {
    "Generated-input search: arbitrary result rows of every type are printed through the real OutputPrinter into a capturing Printer and decoded again by the harness's own JSON reader / field splitter; records must be one per row, in order, JSON values exact (INT digits, REAL bit-exact), CSV header once and one field per column, text `name: value` pairs in column order. Exploration, not proof.",
    "Field-level checks for text/CSV only for delimiter-free values (as the property states); TZ=UTC; the decoder shares no code with serde_json.",
    "DESIGN.md §3 C17"),
+ "C10": (True,
+   "property-based testing over generated schedules (stateful: content x reader-poll placement x idle polls x buffer size x start position), harness-owned schedule via the follow_idle hook; bounded-exhaustive small contents",
+   "Generated-history search: the hook fires exactly where the reader has observed EOF without a complete line and the harness performs the writer's next append there, so every placement of appends relative to reader observations is reachable deterministically; delivered lines must equal the content's newline-terminated lines, once, in order. All poll subsets for all contents up to 5/8 bytes over {a, é, €, newline} are enumerated. Exploration, not proof; a truly parallel writer is not run (see level_note).",
+   "Equivalence assumption: for a sequential reader of an append-only file only the placement of appends relative to the reader's EOF observations matters. The seek done by FollowFileExecutor::new is replicated by the harness at iterator level.",
+   "DESIGN.md §3 C10"),
 }
 
 NOT_YET = {
